@@ -92,9 +92,10 @@ PROPS = {
                    'the current matrix (kept with its exact inverse and condition number), multi-rhs results against the single solves, '
                    'load status against exact (non)singularity. Sampling of an infinite space of matrices and histories: '
                    'held-on-what-was-observed, not a proof.',
-        level_note='trusts GMP arithmetic and the exact inverse (self-tested at start-up). Rounding level = 1e-9 (fresh factorisation) resp. 1e-9/stability() (after updates) relative to '
-                   '||B||*||x||+||b|| (unit roundoff times the element growth the factorisation itself reports and SPxBasisBase tolerates; observed '
-                   'maximum on the unchanged tree over 6.4e6 judged vectors and histories of up to 200 updates: 0.03 of it) plus the documented absolute zero tolerance epsilon=1e-16 with which the solves drop '
+        level_note='trusts GMP arithmetic and the exact inverse (self-tested at start-up). Rounding level = 1e-9 (fresh factorisation) resp. 1e-9 x growth (after updates) relative to '
+                   '||B||*||x||+||b||, growth = max(1/stability() as reported by the factorisation and tolerated by SPxBasisBase down to ~1e-6, '
+                   '1 + sum of the exact pivot ratios |alpha|_max/|pivot| of the updates applied since the last factorisation) '
+                   'plus the documented absolute zero tolerance epsilon=1e-16 with which the solves drop '
                    'entries; multi-rhs results must agree with the single solves within the bound implied by two rounding-level residuals. '
                    '"Never reported singular" is decided for cond_inf<=1e8 and ||B^-1||_inf<=1e5 (away from the documented absolute pivot tolerance '
                    'epsilon_pivot=1e-10); "singular is reported" is decided where floating-point elimination provably leaves no residue above that '
